@@ -81,6 +81,7 @@ void run(vf::Ctx &c) {
   g = &sh;
   c.stage("run");
   vfs::begin(c);
+  vfs::set_post_release_points(true);  // also separate plain accesses from the unlock before them
   int64_t total[2] = {0, 0};
   {
     sdkm::MeterProvider provider(std::unique_ptr<sdkm::ViewRegistry>(new sdkm::ViewRegistry()), opentelemetry::sdk::resource::Resource::GetEmpty());
